@@ -200,9 +200,6 @@ class DULServiceProvider(threading.Thread):
             self._is_killed.set()
 
     def _check_network(self):
-        if self.state_machine.current_state == fsm.States.STA_13:
-            return self._close()
-
         if not self.dul_socket:
             return False
 
@@ -292,23 +289,6 @@ class DULServiceProvider(threading.Thread):
             self.event.append(event)
         except KeyError:
             self.event.append(fsm.Events.EVT_19)
-        return True
-
-    def _close(self):
-        # waiting for connection to close
-        if self.dul_socket is None:
-            return False
-
-        # wait for remote connection to close
-        try:
-            while self.dul_socket.recv(1) != b'':
-                continue
-        except socket.error:
-            return False
-
-        self.dul_socket.close()
-        self.dul_socket = None
-        self.event.append(fsm.Events.EVT_17)
         return True
 
 
